@@ -285,7 +285,15 @@ func GenRecSystem(t *rapid.T) (*Grammar, map[string]bool) {
 			}
 			return SubU(u)
 		}
-		switch rapid.IntRange(0, 5).Draw(t, "np") {
+		switch rapid.IntRange(0, 7).Draw(t, "np") {
+		case 6, 7:
+			// a choice of which only one alternative can match nothing: ( x | y? ), ( y? | x )
+			used["after_partly_nullable_choice"] = true
+			a, b := leaf(), Group("?", leaf())
+			if rapid.Bool().Draw(t, "nullfirst") {
+				return Group("", Alt(b, a))
+			}
+			return Group("", Alt(a, b))
 		case 5:
 			used["after_EOF_reference"] = true
 			return Ref("EOF")
